@@ -228,6 +228,77 @@ func binding(r *ev.Run) {
 	r.Distinct("signature binding")
 }
 
+// TestC17Race: the real sender with 3 batchers as free-running goroutines on an UNINSTRUMENTED -race
+// build: bursts of snapshots, every published signature verified. The cooperative scheduler has no
+// scheduling point inside doSign, so state shared between batchers without synchronisation is the
+// race detector's to find. A sampler: it can add a violation, it is not counted as coverage.
+func TestC17Race(t *testing.T) {
+	r := ev.Begin("C17")
+	iters, burst := 6, 300
+	if r.Thorough() {
+		iters, burst = 40, 1000
+	}
+	fails := map[string]bool{}
+	for it := 0; it < iters; it++ {
+		conf := gossip.DefaultConfig()
+		conf.NodeName, conf.Role, conf.BindAddr = "verif-sender", "server", "127.0.0.1:12397"
+		a, err := gossip.NewAgentFromConfig(conf)
+		if err != nil {
+			t.Fatal(err)
+		}
+		col := &collector{}
+		a.Out.Subscribe(gossip.BatchMessageType, col, 4096)
+		snd := server.NewSender(a, signer, 7, 2, 3)
+		ch := make(chan *protocol.Snapshot, 4096)
+		snd.Start(ch)
+		for i := 0; i < burst; i++ {
+			ch <- snapshot(i)
+		}
+		seen := map[uint64]int{}
+		got := 0
+		deadline := time.After(120 * time.Second) // hang guard only: the flush timer is 100 ms
+	collect:
+		for got < burst {
+			select {
+			case m := <-col.ch:
+				var b protocol.BatchSnapshots
+				if err := b.Decode(m.Payload); err != nil {
+					fails["a published batch cannot be decoded (free-running pass)"] = true
+					continue
+				}
+				for _, ss := range b.Snapshots {
+					got++
+					if ss == nil || ss.Snapshot == nil {
+						fails["a batch contains an empty entry (free-running pass)"] = true
+						continue
+					}
+					seen[ss.Snapshot.Version]++
+					if ok, _ := signer.Verify([]byte(fmt.Sprintf("%v", ss.Snapshot)), ss.Signature); !ok {
+						fails["a published snapshot carries a signature that does not verify under the server's key (free-running pass, 3 batchers)"] = true
+					}
+				}
+			case <-deadline:
+				fails["snapshots handed to the running sender are never published (free-running pass)"] = true
+				break collect
+			}
+		}
+		for v, c := range seen {
+			if c > 1 {
+				fails["a snapshot is published more than once (free-running pass)"] = true
+				_ = v
+			}
+		}
+		snd.Stop()
+		r.Eval(burst)
+	}
+	for f := range fails {
+		r.Violation(f, nil)
+	}
+	r.Extra("race_detector_iterations", iters)
+	r.Extra("race_detector_burst", burst)
+	r.Finish()
+}
+
 func TestC17(t *testing.T) {
 	r := ev.Begin("C17")
 	r.Rule("the real server.Sender (2 batchers, batch size 2, real ed25519 signer) on a real un-started gossip.Agent with one subscriber on its outgoing bus, under the controlled scheduler (scheduling points: every channel operation, select, lock, spawn; a select's timer case fires for free when nothing else can run and as a counted deviation otherwise); a feeder pushes k=1..4 (5 thorough) snapshots in EVERY composition into groups with EVERY choice per gap of 'wait until taken' or 'wait until published'; ALL interleavings with at most 2 deviations (1 for k=4 quick; 3 thorough); the sender keeps running until everything is published (a snapshot that never comes out is reported as the resulting deadlock/loss); oracle: every snapshot in exactly one batch, batch sizes 1..2, every signature verifies over the printed snapshot under the server's key, content unchanged, configured kind and TTL; plus signature binding: every single-bit change of the 64 signature bytes and every change of a digest byte / the version must invalidate the signature; outcomes = distinct batch shapes observed")
